@@ -696,6 +696,9 @@ func ruleEPrune(p *Program, r *Reporter) {
 			if isDefNil(res) {
 				continue
 			}
+			if sy, ok := res.(avSym); ok && sy.tag == "val" {
+				continue // the right-hand side applied to the value as a whole (a sliced string): not a projection result
+			}
 			es, why := vr.arrayElems(o.St, res)
 			if why != "" {
 				unknown = append(unknown, fmt.Sprintf("%s returns %s", p.Fset.Position(o.Ret.Pos()), why))
@@ -752,10 +755,25 @@ func ruleESelectorNull(p *Program, r *Reporter) {
 			continue
 		}
 		key := "evaluator." + name + " wrong-type subject"
-		// paths on which a type test of the subject succeeded are of no interest
+		// the containers the selector is defined on; paths on which the subject is one of them are of no interest
+		containers := map[string]bool{"[]any": true}
+		switch name {
+		case "field", "projectObject", "objectValues":
+			containers = map[string]bool{"map[string]any": true}
+		case "slice", "sliceStep":
+			containers = map[string]bool{"[]any": true, "string": true}
+		}
+		isContainer := func(ts []string) bool {
+			for _, t := range ts {
+				if containers[t] {
+					return true
+				}
+			}
+			return false
+		}
 		vr, why := d.run(fn, 3, func(st *State, subject avSym) bool {
 			passed, _ := st.subjectTests(subject)
-			return len(passed) > 0
+			return isContainer(passed)
 		})
 		if why != "" {
 			r.Unknown(fn.Pos(), key, why)
@@ -767,8 +785,22 @@ func ruleESelectorNull(p *Program, r *Reporter) {
 		var tested []string
 		for _, o := range vr.outs {
 			passed, failed := o.St.subjectTests(vr.subject)
-			if len(passed) > 0 || len(failed) == 0 {
+			if isContainer(passed) || len(passed)+len(failed) == 0 {
 				continue
+			}
+			if len(passed) > 0 {
+				// the subject is something else the helper knows (a string handed to an array projection): null, unless
+				// the caller asked for it by a flag (what the dispatcher passes there is decided by D-DISPATCH/E-NODESETS)
+				flagged := false
+				for _, c := range o.St.Conds {
+					if sy, ok := c.V.(avSym); ok && strings.HasPrefix(sy.tag, "arg:") && c.Truth {
+						flagged = true
+					}
+				}
+				if flagged {
+					continue
+				}
+				failed = append(failed, "(a "+strings.Join(passed, "/")+" it is)")
 			}
 			pos := fn.Pos()
 			if o.Ret != nil {
